@@ -111,6 +111,7 @@ func (c *RunnerCloserManager) AddCloser(closers ...any) error {
 	if c.closing.Load() {
 		return ErrManagerAlreadyClosed
 	}
+	verifPoint("addcloser.afterCheck")
 
 	c.mngr.lock.Lock()
 	defer c.mngr.lock.Unlock()
